@@ -34,6 +34,9 @@ type scriptReader struct {
 	failAt  int // -1: never
 	cancel  context.CancelFunc
 	cancAt  int // -1: never
+	// eofWithData: the read that delivers the last bytes reports io.EOF at the same time
+	// (allowed by io.Reader, done by e.g. compress/flate)
+	eofWithData bool
 }
 
 func (r *scriptReader) Read(p []byte) (int, error) {
@@ -63,6 +66,9 @@ func (r *scriptReader) Read(p []byte) (int, error) {
 	}
 	copy(p, r.content[r.pos:r.pos+n])
 	r.pos += n
+	if r.eofWithData && r.pos == len(r.content) && r.failAt < 0 {
+		return n, io.EOF
+	}
 	return n, nil
 }
 
@@ -88,6 +94,9 @@ func VerifC20_History() {
 			continue
 		}
 		r := &scriptReader{content: content, failAt: -1, cancAt: -1}
+		if n > 0 && outcome == 0 {
+			r.eofWithData = verif.Bool("eofWithData")
+		}
 		ctx := context.Background()
 		var cancel context.CancelFunc
 		switch outcome {
